@@ -171,6 +171,13 @@ pub fn not_jumpi(o: &DynOpcode) -> (r: bool) ensures r == !op_is_jumpi(o) { unim
 #[verifier::external_body]
 pub fn not_jumpdest(o: &DynOpcode) -> (r: bool) ensures r == !op_is_jumpdest(o) { unimplemented!() }
 
+// A-STD: `u32::try_from(n).expect(..)` is defined exactly for n <= u32::MAX (the panic is the precondition)
+#[verifier::external_body]
+pub fn vx_usize_as_u32(n: usize) -> (r: u32)
+    requires n <= u32::MAX,
+    ensures r == n,
+{ unimplemented!() }
+
 //@extract file=src/vm/data.rs path="struct JumpTargets" kind=type
 //@end
 impl JumpTargets {
@@ -184,6 +191,24 @@ impl JumpTargets {
 
 //@extract file=src/vm/data.rs path="impl JumpTargets" kind=header
 //@end
+//@extract file=src/vm/data.rs path="impl JumpTargets|fn new" props=C03,C01 id=JumpTargets::new
+//@ret r
+// R-CALL: `u32::try_from(len).expect(..)` -> a stand-in whose PRECONDITION is the panic condition (len <= u32::MAX: the premise
+// `VM::new` carries as well; one instruction per code byte, so code of at most u32::MAX bytes)
+//@rw R-CALL
+//@old
+u32::try_from(instructions_len).expect("Invalid instruction length provided")
+//@new
+vx_usize_as_u32(instructions_len)
+//@spec
+        requires et_len(&instructions) <= u32::MAX,
+        ensures
+            r.fork_limit() == maximum_forks_per_jump_target,                      //@ob C03.limits.jump_targets_new.budget_is_the_given_limit
+            forall|t: u32| r.forks(t) == 0,                                       //@ob C03.limits.jump_targets_new.no_fork_granted_yet
+            r.wf(), r.within_limit(),                                             //@ob C03.limits.jump_targets_new.bound_holds_initially
+            *r.code() == instructions,
+//@end
+
 //@extract file=src/vm/data.rs path="impl JumpTargets|fn fork_to"
 //@ret r
 //@rw R-CALL
@@ -219,6 +244,25 @@ not_jumpdest(&concrete_target_inst)
             r is Ok ==> (current_instruction as nat) < et_len(old(self).code()) && (target_instruction as nat) < et_len(old(self).code())
                 && op_is_jumpi(&et_instr(old(self).code(), current_instruction)) && op_is_jumpdest(&et_instr(old(self).code(), target_instruction)),   //@ob C08.limits.fork_to.only_jumpi_to_jumpdest
             r is Err ==> r->Err_0.location == current_instruction,                                            //@ob C17.limits.fork_to.error_located_at_current
+//@end
+
+//@extract file=src/vm/data.rs path="impl JumpTargets|fn cond_jump_count" props=C03,C17,C01 id=JumpTargets::cond_jump_count
+//@ret r
+//@rw R-CALL
+//@old
+concrete_target_inst
+    .as_ref()
+    .as_any()
+    .downcast_ref::<JumpDest>()
+    .is_none()
+//@new
+not_jumpdest(&concrete_target_inst)
+//@spec
+        requires self.wf(),
+        ensures
+            r is Ok ==> r->Ok_0 as nat == self.forks(instruction_pointer),                                   //@ob C03.limits.cond_jump_count.reports_the_forks_granted
+            r is Ok <==> ((instruction_pointer as nat) < et_len(self.code()) && op_is_jumpdest(&et_instr(self.code(), instruction_pointer))),   //@ob C08.limits.cond_jump_count.only_for_jump_destinations
+            r is Err ==> r->Err_0.location == instruction_pointer,                                            //@ob C17.limits.cond_jump_count.error_located
 //@end
 }
 
